@@ -30,6 +30,7 @@ import (
 )
 
 var fset = token.NewFileSet()
+var outPath = "/verif/coq/C03/Gen.v"
 
 func die(pos token.Pos, format string, a ...any) {
 	where := ""
@@ -38,6 +39,10 @@ func die(pos token.Pos, format string, a ...any) {
 		where = fmt.Sprintf("%s:%d: ", filepath.Base(p.Filename), p.Line)
 	}
 	fmt.Fprintf(os.Stderr, "zipfacts2coq: %sunsupported shape: %s\n", where, fmt.Sprintf(format, a...))
+	// a stale Gen.v / Gen.vo must never stand in for a failed extraction
+	for _, ext := range []string{".v", ".vo", ".vos", ".vok", ".glob"} {
+		_ = os.Remove(strings.TrimSuffix(outPath, ".v") + ext)
+	}
 	os.Exit(1)
 }
 
@@ -112,7 +117,7 @@ func (c check) String() string {
 	return fmt.Sprintf("%s %s %s", c.lhs, c.op, c.getter)
 }
 
-var cmpNames = map[token.Token]string{token.GTR: "Gt", token.GEQ: "Ge", token.LSS: "Lt", token.LEQ: "Le", token.EQL: "Eq", token.NEQ: "Ne"}
+var cmpNames = map[token.Token]string{token.GTR: "CGt", token.GEQ: "CGe", token.LSS: "CLt", token.LEQ: "CLe", token.EQL: "CEq", token.NEQ: "CNe"}
 var getters = map[string]string{"GetMaxFileSize": "GMaxFileSize", "GetMaxTotalSize": "GMaxTotalSize", "GetMaxFileCount": "GMaxFileCount", "GetMaxDepth": "GMaxDepth"}
 
 // variables a limit may be compared with
@@ -244,14 +249,14 @@ type event struct {
 }
 
 type walker struct {
-	fn      string
-	events  []event
-	aliases map[string]string // local name -> canonical expression (filecount -> fileCounter.Load())
-	checks  map[string]check  // named checks found
-	sw      map[string]check
-	flags   map[string]int // event text -> index of first occurrence
-	results []string       // named results of the function
-	applyDepth int         // number of enclosing `if limits.Apply() && ...` bodies
+	fn         string
+	events     []event
+	aliases    map[string]string // local name -> canonical expression (filecount -> fileCounter.Load())
+	checks     map[string]check  // named checks found
+	sw         map[string]check
+	flags      map[string]int // event text -> index of first occurrence
+	results    []string       // named results of the function
+	applyDepth int            // number of enclosing `if limits.Apply() && ...` bodies
 }
 
 func (w *walker) emit(pos token.Pos, format string, a ...any) {
@@ -723,10 +728,10 @@ func main() {
 	if repo == "" {
 		repo = "/repo"
 	}
-	out := "/verif/coq/C03/Gen.v"
 	if len(os.Args) > 1 {
-		out = os.Args[1]
+		outPath = os.Args[1]
 	}
+	out := outPath
 	zf := parse(filepath.Join(repo, "utils/filesystem/zip.go"))
 	lf := parse(filepath.Join(repo, "utils/filesystem/limits.go"))
 	cf := parse(filepath.Join(repo, "utils/safeio/copy.go"))
